@@ -479,6 +479,9 @@ def _answer(st, i, m, beh, args):
     salt = st.case['salt']
     if m == 'blockcount':
         if beh == 'ok':
+            if st.case.get('at_tip'):
+                # the chain ends with the block of the last confirmed transaction of the universe
+                return max(t['height'] for t in U.txs if t['height'] is not None)
             return 800000 + 10 * st.epoch + i
         return 0 if beh == 'empty' else 'height?'
     if m == 'estimatefee':
@@ -1636,6 +1639,14 @@ def cache_scenarios(ctx):
             out.append((['getblock'], [p1, p2] + mid(0, False, reopen) + [dict(p1), dict(p2)]))
             out.append((['getblock'], [q('getblock', parse=parse, byhash=False, limit=10, page=1)] +
                         mid(0, False, reopen) + [dict(p1), dict(p2)]))
+    # a narrow first page of a block, then a wider page / the whole block (with and without parsed transactions)
+    for parse in tf:
+        for parse2 in tf:
+            for reopen in tf:
+                out.append((['getblock'], [q('getblock', parse=parse, byhash=False, limit=1, page=1)] +
+                            mid(0, False, reopen) + [q('getblock', parse=parse2, byhash=False, limit=10, page=1),
+                                                     q('getblock', parse=parse2, byhash=False, limit=2, page=1)],
+                            True, None, 4, {'salt': 3}))
     # a history read in limited steps, then without limit
     for addr in (0, 1):
         for l1, l2 in ((1, 2), (1, 3), (2, 3), (2, 4), (1, 20), (2, 20)):
@@ -1685,6 +1696,16 @@ def cache_scenarios(ctx):
                                                         q('getblock', parse=parse, byhash=byhash, limit=10),
                                                         q('gettransaction', tx=1), q('estimatefee', blocks=3),
                                                         q('blockcount')], 'file' if same_salt else True))
+    # histories read in limited steps while the last confirmed transaction sits in the newest block of the chain (in
+    # the universes of salt 1 that block holds two transactions of the address: a limited read can end between them)
+    for addr in (0, 1):
+        for m in ('gettransactions', 'getutxos'):
+            for l1, l2 in ((1, 20), (2, 20), (2, 3), (1, 2)):
+                for salt in (1, 3, 0):
+                    for reopen in tf:
+                        out.append(([m], [q(m, addr=addr, after=-1, limit=l1)] + mid(0, False, reopen) +
+                                    [q(m, addr=addr, after=-1, limit=l2), q('addrinfo', addr=addr)], True, None, 4,
+                                    {'salt': salt, 'at_tip': True}))
     # fee estimate while every provider is down (documented default), then again when they are back
     for blocks in (1, 3, 25):
         for dt in (1, 599, 601):
@@ -1699,16 +1720,19 @@ def cache_scenarios(ctx):
         cache = item[2] if len(item) > 2 else (True if n % 7 else 'file')
         # two providers; in every third scenario the preferred one fails the first time it is asked
         beh = {}
-        if len(item) > 3:
+        if len(item) > 3 and item[3] is not None:
             beh = item[3]
         elif n % 3 == 0:
             beh = {m: [['client_error', 'ok'], ['ok']] for m in methods}
         # (the second network of a 'net' step: the next one in the list, with the same or another chain)
         ops = [dict(o, net=NETS[(n + 1) % 3], salt=(n % 5) if o.get('same_salt') else (n + 2) % 5)
                if o.get('op') == 'net' else o for o in ops]
-        yield n, {'kind': 'plan', 'net': NETS[n % 3], 'k': 2, 'prio': [2, 1] if n % 2 else [1, 1], 'minp': 1,
-                  'maxp': 1 + (n % 5 == 0), 'max_errors': item[4] if len(item) > 4 else 4, 'cache': cache, 'rseed': n, 'salt': n % 5, 'beh': beh,
-                  'ops': ops}
+        plan = {'kind': 'plan', 'net': NETS[n % 3], 'k': 2, 'prio': [2, 1] if n % 2 else [1, 1], 'minp': 1,
+                'maxp': 1 + (n % 5 == 0), 'max_errors': item[4] if len(item) > 4 else 4, 'cache': cache, 'rseed': n,
+                'salt': n % 5, 'beh': beh, 'ops': ops}
+        if len(item) > 5:
+            plan.update(item[5])
+        yield n, plan
 
 
 def plan_strategy(ctx, cached):
@@ -1833,7 +1857,8 @@ def plan_strategy(ctx, cached):
         return {'kind': 'plan', 'net': draw(st.sampled_from(NETS)), 'k': k, 'prio': prio, 'minp': minp, 'maxp': maxp,
                 'max_errors': lim, 'cache': (draw(st.sampled_from([True] * 7 + ['file'])) if cached else False),
                 'rseed': draw(st.integers(0, 2 ** 32 - 1)), 'ignp': draw(st.sampled_from([False] * 7 + [True])),
-                'salt': draw(st.integers(0, 5)), 'beh': beh, 'ops': ops}
+                'salt': draw(st.integers(0, 5)), 'beh': beh, 'ops': ops,
+                'at_tip': draw(st.sampled_from([False, False, False, True])) if cached else False}
     return plans()
 
 
